@@ -205,7 +205,12 @@ class PatchLinkage:
 
         patch_ids = list(ref_cat.keys())
         centers = ref_cat.get_centers()
-        radii = ref_cat.get_radii()
+        # use the largest extent of the patches in any of the catalogs
+        radii = ref_cat.get_radii().data
+        for cat in other_cats:
+            offsets = centers.distance(cat.get_centers()).data
+            radii = np.maximum(radii, cat.get_radii().data + offsets)
+        radii = AngularDistances(radii)
 
         patch_links = dict()
         for patch_id, patch_center, patch_radius in zip(patch_ids, centers, radii):
